@@ -184,8 +184,13 @@ fn predict_arith<const EDGE: bool>() {
 
 #[kani::proof]
 #[kani::unwind(7)]
-fn predict_arith_contract() {
+fn predict_arith_edge_contract() {
     predict_arith::<true>();
+}
+
+#[kani::proof]
+#[kani::unwind(7)]
+fn predict_arith_interior_contract() {
     predict_arith::<false>();
 }
 
@@ -193,11 +198,15 @@ fn neighbours_on_image<const W: usize, const H: usize>() {
     let img: [[i32; W]; H] = kani::any();
     let mut st = PredictorState::<i32>::new();
     st.reset(W as u32, &[], None);
+    let mut interior = 0;
     let mut y = 0;
     while y < H {
         let mut x = 0;
         while x < W {
             let edge = !(y >= 2 && W > 4 && x >= 2 && x < W - 2);
+            if !edge {
+                interior += 1;
+            }
             let nb = spec_neighbours::<W, H>(&img, x, y);
             let prop9_left = if x > 0 {
                 let l = spec_neighbours::<W, H>(&img, x - 1, y);
@@ -222,6 +231,7 @@ fn neighbours_on_image<const W: usize, const H: usize>() {
         }
         y += 1;
     }
+    kani::cover!(W <= 4 || H <= 2 || interior > 0); // the EDGE = false path is exercised when the geometry has an interior
 }
 
 macro_rules! image_harness {
@@ -239,3 +249,207 @@ image_harness!(neighbours_image_3x3, 3, 3);
 image_harness!(neighbours_image_4x3, 4, 3);
 image_harness!(neighbours_image_5x3, 5, 3);
 image_harness!(neighbours_image_6x4, 6, 4);
+
+// ------------------------------------------------------------------------------------------------
+// Weighted (self-correcting) predictor, H.5.
+//   subpred[0] = W3 + NE3 - N3                                   (X3 = X << 3)
+//   subpred[1] = N3 - (((teW + teN + teNE) * wp_p1) >> 5)
+//   subpred[2] = W3 - (((teW + teN + teNW) * wp_p2) >> 5)
+//   subpred[3] = N3 - ((teNW*wp_p3a + teN*wp_p3b + teNE*wp_p3c + (NN3 - N3)*wp_p3d + (NW3 - W3)*wp_p3e) >> 5)
+//   error2weight(e, maxweight): shift = max(0, floor(log2(e + 1)) - 5);
+//                               4 + ((maxweight * ((1 << 24) Idiv ((e >> shift) + 1))) >> shift)
+//   weight[i] = error2weight(err_sum[i], wp_wi); sum_weights = sum(weight); log_weight = floor(log2(sum_weights)) + 1;
+//   weight[i] >>= log_weight - 5; sum_weights = sum(weight);
+//   s = (sum_weights >> 1) - 1 + sum(subpred[i] * weight[i]);  prediction = (s * ((1 << 24) Idiv sum_weights)) >> 24;
+//   if (((teN ^ teW) | (teN ^ teNW)) <= 0) prediction = clamp(prediction, min(W3, N3, NE3), max(W3, N3, NE3));
+//   max_error = teW; for e in (teN, teNW, teNE): if (abs(e) > abs(max_error)) max_error = e;
+// The spec below is written with i64 arithmetic whose every operation is overflow-checked by Kani, so it IS the
+// mathematical-integer value; (1 << 24) Idiv d is taken from a table built by that very formula (a symbolic divisor
+// does not close in CBMC), and div_lookup_contract checks the code's DIV_LOOKUP against the same formula.
+// State domain: every value the record() step can store -- true errors are `as i32` truncations (any i32),
+// sub-predictor error sums are wrapping u32 sums (any u32), header fields u(5) / u(4) (WpHeader bundle).
+// ------------------------------------------------------------------------------------------------
+fn spec_div24_table() -> [i64; 65] {
+    let mut t = [0i64; 65];
+    let mut i = 1;
+    while i <= 64 {
+        t[i] = (1i64 << 24) / (i as i64);
+        i += 1;
+    }
+    t
+}
+
+/// sub-predictions and max_error of H.5 (overflow-checked i64 = mathematical integers)
+fn spec_wp_subpred(wp: &WpHeader, te_w: i64, te_n: i64, te_nw: i64, te_ne: i64, n: i64, nw: i64, ne: i64, w: i64, nn: i64) -> ([i64; 4], i64) {
+    let (n3, nw3, ne3, w3, nn3) = (n * 8, nw * 8, ne * 8, w * 8, nn * 8);
+    let subpred = [
+        w3 + ne3 - n3,
+        n3 - (((te_w + te_n + te_ne) * wp.wp_p1 as i64) >> 5),
+        w3 - (((te_w + te_n + te_nw) * wp.wp_p2 as i64) >> 5),
+        n3 - ((te_nw * wp.wp_p3a as i64 + te_n * wp.wp_p3b as i64 + te_ne * wp.wp_p3c as i64
+            + (nn3 - n3) * wp.wp_p3d as i64 + (nw3 - w3) * wp.wp_p3e as i64) >> 5),
+    ];
+    let mut max_error = te_w;
+    if abs64(te_n) > abs64(max_error) {
+        max_error = te_n;
+    }
+    if abs64(te_nw) > abs64(max_error) {
+        max_error = te_nw;
+    }
+    if abs64(te_ne) > abs64(max_error) {
+        max_error = te_ne;
+    }
+    (subpred, max_error)
+}
+
+/// error2weight of H.5 with the machine types of the reference decoder (uint32 weights)
+fn spec_error2weight(err_sum: u32, maxweight: u32, div: &[u32; 65]) -> u32 {
+    let l = (err_sum as u64 + 1).ilog2(); // floor(log2(err_sum + 1))
+    let shift = if l > 5 { l - 5 } else { 0 };
+    4 + ((maxweight * div[(err_sum >> shift) as usize + 1]) >> shift)
+}
+
+/// weighted prediction of H.5 given the sub-predictions (uint32 weights, int64 accumulator as in the reference decoder;
+/// wp_predict_total_contract proves that none of these operations overflows in the real code)
+fn spec_wp_prediction(wp: &WpHeader, subpred: [i64; 4], te_w: i64, te_n: i64, te_nw: i64, err_sum: [u32; 4],
+                      n: i64, ne: i64, w: i64) -> i64 {
+    let mut div = [0u32; 65];
+    let mut i = 1;
+    while i <= 64 {
+        div[i] = ((1u64 << 24) / i as u64) as u32;
+        i += 1;
+    }
+    let (n3, ne3, w3) = (n * 8, ne * 8, w * 8);
+    let mut weight = [
+        spec_error2weight(err_sum[0], wp.wp_w0, &div),
+        spec_error2weight(err_sum[1], wp.wp_w1, &div),
+        spec_error2weight(err_sum[2], wp.wp_w2, &div),
+        spec_error2weight(err_sum[3], wp.wp_w3, &div),
+    ];
+    let sum_weights = weight[0] + weight[1] + weight[2] + weight[3];
+    let log_weight = (sum_weights as u64).ilog2() + 1;
+    let mut i = 0;
+    while i < 4 {
+        weight[i] >>= log_weight - 5;
+        i += 1;
+    }
+    let sum_weights = weight[0] + weight[1] + weight[2] + weight[3];
+    let mut s = (sum_weights as i64 >> 1) - 1;
+    let mut i = 0;
+    while i < 4 {
+        s += subpred[i] * weight[i] as i64;
+        i += 1;
+    }
+    let mut prediction = (s * div[sum_weights as usize] as i64) >> 24;
+    if ((te_n ^ te_w) | (te_n ^ te_nw)) <= 0 {
+        let mn = if n3 < w3 { n3 } else { w3 };
+        let mn = if mn < ne3 { mn } else { ne3 };
+        let mx = if n3 > w3 { n3 } else { w3 };
+        let mx = if mx > ne3 { mx } else { ne3 };
+        prediction = if prediction < mn { mn } else if prediction > mx { mx } else { prediction };
+    }
+    prediction
+}
+
+#[kani::proof]
+#[kani::unwind(66)]
+fn div_lookup_contract() {
+    let t = spec_div24_table();
+    let mut i = 1;
+    while i <= 64 {
+        assert!(DIV_LOOKUP[i] as i64 == t[i], "[C03] DIV_LOOKUP[i] == (1 << 24) Idiv i");
+        i += 1;
+    }
+    assert!(DIV_LOOKUP.len() == 65);
+}
+
+fn any_wp_header() -> WpHeader {
+    let h = WpHeader {
+        default_wp: kani::any(),
+        wp_p1: kani::any(),
+        wp_p2: kani::any(),
+        wp_p3a: kani::any(),
+        wp_p3b: kani::any(),
+        wp_p3c: kani::any(),
+        wp_p3d: kani::any(),
+        wp_p3e: kani::any(),
+        wp_w0: kani::any(),
+        wp_w1: kani::any(),
+        wp_w2: kani::any(),
+        wp_w3: kani::any(),
+    };
+    // ranges of the bundle definition (predictor.rs:8-21): u(5) and u(4)
+    kani::assume(h.wp_p1 < 32 && h.wp_p2 < 32 && h.wp_p3a < 32 && h.wp_p3b < 32 && h.wp_p3c < 32 && h.wp_p3d < 32 && h.wp_p3e < 32);
+    kani::assume(h.wp_w0 < 16 && h.wp_w1 < 16 && h.wp_w2 < 16 && h.wp_w3 < 16);
+    h
+}
+
+fn any_sc_state() -> SelfCorrectingPredictor {
+    SelfCorrectingPredictor {
+        width: kani::any(),
+        x: kani::any(),
+        y: kani::any(),
+        true_err_row: Vec::new(),
+        subpred_err_row: Vec::new(),
+        wp: any_wp_header(),
+        true_err_w: kani::any(),
+        true_err_nw: kani::any(),
+        true_err_n: kani::any(),
+        true_err_ne: kani::any(),
+        subpred_err_nw_ww: kani::any(),
+        subpred_err_n_w: kani::any(),
+        subpred_err_ne: kani::any(),
+    }
+}
+
+/// Totality: no index out of DIV_LOOKUP, no shift overflow, no ilog2(0), no i64 / u32 overflow, for every state.
+#[kani::proof]
+#[kani::unwind(66)]
+fn wp_predict_total_contract() {
+    let sc = any_sc_state();
+    let (n, nw, ne, w, nn): (i32, i32, i32, i32, i32) = kani::any();
+    let r = sc.predict(n, nw, ne, w, nn);
+    // sanity of the result that every caller relies on: max_error is one of the four true errors
+    assert!(r.max_error == sc.true_err_w || r.max_error == sc.true_err_n || r.max_error == sc.true_err_nw || r.max_error == sc.true_err_ne,
+        "[C01,C03] max_error is one of teW, teN, teNW, teNE");
+    assert!(r.subpred[0] == (w as i64 + ne as i64 - n as i64) * 8, "[C03] subpred[0] == W3 + NE3 - N3");
+    // predictor 6 = (prediction + 3) >> 3 must not overflow either (Predictor::predict, SelfCorrecting arm)
+    assert!(r.prediction > i64::MIN / 2 && r.prediction < i64::MAX / 2, "[C01] prediction stays far inside i64");
+}
+
+/// sub-predictions and max_error == H.5 in mathematical integers, for every state
+#[kani::proof]
+#[kani::unwind(66)]
+fn wp_subpred_spec_contract() {
+    let sc = any_sc_state();
+    let (n, nw, ne, w, nn): (i32, i32, i32, i32, i32) = kani::any();
+    let r = sc.predict(n, nw, ne, w, nn);
+    let (subpred, max_error) = spec_wp_subpred(&sc.wp, sc.true_err_w as i64, sc.true_err_n as i64, sc.true_err_nw as i64, sc.true_err_ne as i64,
+        n as i64, nw as i64, ne as i64, w as i64, nn as i64);
+    assert!(r.subpred[0] == subpred[0] && r.subpred[1] == subpred[1] && r.subpred[2] == subpred[2] && r.subpred[3] == subpred[3],
+        "[C03] the four sub-predictions == H.5");
+    assert!(r.max_error as i64 == max_error, "[C03] max_error == H.5");
+    kani::cover!(max_error == sc.true_err_ne as i64 && max_error != sc.true_err_w as i64);
+}
+
+/// weighted prediction == H.5 (error2weight, normalisation, rounding, clamp)
+#[kani::proof]
+#[kani::unwind(66)]
+fn wp_prediction_spec_contract() {
+    let sc = any_sc_state();
+    let (n, nw, ne, w, nn): (i32, i32, i32, i32, i32) = kani::any();
+    let mut err_sum = [0u32; 4];
+    let mut i = 0;
+    while i < 4 {
+        let e = sc.subpred_err_nw_ww[i] as u64 + sc.subpred_err_n_w[i] as u64 + sc.subpred_err_ne[i] as u64;
+        // premise: the accumulated sub-predictor errors are representable in the u32 the code keeps them in
+        kani::assume(e <= u32::MAX as u64);
+        err_sum[i] = e as u32;
+        i += 1;
+    }
+    let r = sc.predict(n, nw, ne, w, nn);
+    let want = spec_wp_prediction(&sc.wp, r.subpred, sc.true_err_w as i64, sc.true_err_n as i64, sc.true_err_nw as i64, err_sum, n as i64, ne as i64, w as i64);
+    assert!(r.prediction == want, "[C03] weighted prediction == H.5 (error2weight, normalisation, rounding, clamp)");
+    kani::cover!(want != w as i64 * 8 && want != n as i64 * 8 && want != ne as i64 * 8);
+    kani::cover!(err_sum[0] > 1 << 20);
+}
